@@ -53,19 +53,24 @@ def empty (fixed : Option Nat) : Circuit :=
     indices := if truthy fixed then List.range (fixed.getD 0) else [],
     counts := [], nqCounts := [], varIdx := [] }
 
-/-- `Circuit.add_gate` (the gate has already been constructed, i.e. validated) -/
-def addGate (c : Circuit) (g : Gate) : Except Err Circuit :=
-  let qs := g.qubits
-  let bad := match c.fixed with
-    | some n => truthy c.fixed && qs.any (fun q => q ≥ n)
-    | Option.none => false
-  if bad then .error .value
-  else .ok { c with
+/-- the range check of `add_gate`: some qubit index is beyond the fixed width -/
+def addGateBad (c : Circuit) (g : Gate) : Bool :=
+  match c.fixed with
+  | some n => truthy c.fixed && g.qubits.any (fun q => q ≥ n)
+  | Option.none => false
+
+/-- the bookkeeping of `add_gate` once the gate is accepted -/
+def addGateCore (c : Circuit) (g : Gate) : Circuit :=
+  { c with
     gates := c.gates ++ [g],
     varIdx := if g.isVar then c.varIdx ++ [c.gates.length] else c.varIdx,
-    indices := qs.foldl setInsert c.indices,
+    indices := g.qubits.foldl setInsert c.indices,
     counts := bump c.counts g.name,
-    nqCounts := bump c.nqCounts qs.length }
+    nqCounts := bump c.nqCounts g.qubits.length }
+
+/-- `Circuit.add_gate` (the gate has already been constructed, i.e. validated) -/
+def addGate (c : Circuit) (g : Gate) : Except Err Circuit :=
+  if c.addGateBad g then .error .value else .ok (c.addGateCore g)
 
 def addGates (c : Circuit) : List Gate → Except Err Circuit
   | [] => .ok c
